@@ -28,13 +28,15 @@
 (* mode "adapter": the adapter exists (its constructor sets clear_history_before_execute);  *)
 (* mode "scenario": no adapter, the flag is the BaseScenario default FALSE.                 *)
 (* policy: "warm" (neither option), "reset" (reset_x0_before_opt), "set" (set_x0_before_opt *)
-(* with x among the adapter inputs).  keep = keep_opt_history.                              *)
+(* with x among the adapter inputs).  keep = keep_opt_history.  cached = the adapter has   *)
+(* its default SimpleCache (FALSE: set_cache(NONE)).                                        *)
 EXTENDS Naturals, Sequences, FiniteSets, TLC
 
 CONSTANTS Modes,     \* subset of {"adapter", "scenario"}
           Kinds,     \* subset of {"doe", "opt"}
           Policies,  \* subset of {"warm", "reset", "set"}
           Keeps,     \* subset of BOOLEAN
+          Cacheds,   \* subset of BOOLEAN: the adapter keeps its default SimpleCache / has no cache
           As,        \* values of the parameter a, subset of 0..2
           Xs,        \* lattice values of x for SetCurrent / the x input of "set", subset of 0..3
           MenuIds,   \* which scripted sample sequences of AllMenus the "doe" kind may use
@@ -42,35 +44,36 @@ CONSTANTS Modes,     \* subset of {"adapter", "scenario"}
           MaxSteps   \* bound on the length of a behaviour
 
 ASSUME /\ Modes \subseteq {"adapter", "scenario"} /\ Kinds \subseteq {"doe", "opt"}
-       /\ Policies \subseteq {"warm", "reset", "set"} /\ Keeps \subseteq BOOLEAN
+       /\ Policies \subseteq {"warm", "reset", "set"} /\ Keeps \subseteq BOOLEAN /\ Cacheds \subseteq BOOLEAN
        /\ As \subseteq 0..2 /\ Xs \subseteq 0..3 /\ X0 \in 0..3 /\ 0 \in As
 
 \* the catalogue of scripted sample sequences (lattice values of x); 0 stands for "nothing scripted"
 AllMenus == << <<0, 2>>, <<2, 1>>, <<3>>, <<3, 0, 1>>, <<1, 1>>, <<2, 0>> >>
 Menu(i)  == IF i = 0 THEN <<>> ELSE AllMenus[i]
 ASSUME MenuIds \subseteq 1..Len(AllMenus)
+ASSUME PrintT(<<"MENUS", AllMenus>>)      \* transported to the harness, which scripts the real DOE with them
 
 F(x3, a) == LET d == IF x3 >= 3 * a + 1 THEN x3 - (3 * a + 1) ELSE (3 * a + 1) - x3 IN d * d
 Entry(x3, a) == [x |-> x3, y |-> F(x3, a)]
 NoOut  == [x |-> 0, y |-> 0, hit |-> FALSE, a |-> 0]
 NoKey  == [a |-> 9, x |-> 9, m |-> <<>>]         \* empty adapter cache (9 is not a value of a / x)
 
-VARIABLES mode, kind, policy, keep,   \* configuration, chosen once
+VARIABLES mode, kind, policy, keep, cached,   \* configuration, chosen once
           cur,      \* current value of the design space, in thirds
           adef,     \* default value of the input a of the inner discipline
           clear,    \* scenario.clear_history_before_execute
           db,       \* the database of the inner problem: sequence of [x, y], one entry per x
           partial,  \* the database has more entries, left unspecified ("opt")
           stored,   \* adapter.databases: sequence of [db, partial]
-          ckey,     \* the inputs of the last evaluation kept by the adapter's SimpleCache
-          cout,     \* ... and its outputs
+          ckey,     \* the inputs of the last evaluation made by the adapter (what its SimpleCache keeps,
+          cout,     \* if it has one) ... and its outputs
           out,      \* what the last ExecuteAdapter returned (x, y) / the result of RunScenario
           start,    \* the current value of the design space when the last inner run began
           nruns,    \* inner runs made on behalf of the adapter
           log,      \* ghost: one record per such run: inputs, settings, start point, outputs, database
           steps
-cfgv == <<mode, kind, policy, keep>>
-vars == <<mode, kind, policy, keep, cur, adef, clear, db, partial, stored, ckey, cout, out, start, nruns, log, steps>>
+cfgv == <<mode, kind, policy, keep, cached>>
+vars == <<mode, kind, policy, keep, cached, cur, adef, clear, db, partial, stored, ckey, cout, out, start, nruns, log, steps>>
 
 \* ---------------------------------------------------------------- the inner run
 RECURSIVE Record(_, _, _)
@@ -95,8 +98,8 @@ RunFrom(d0, m, a, s) ==
 
 Settings == IF kind = "doe" THEN MenuIds ELSE {0}
 
-Init == /\ mode \in Modes /\ kind \in Kinds /\ policy \in Policies /\ keep \in Keeps
-        /\ (mode = "scenario" => (policy = "warm" /\ keep = FALSE /\ kind = "doe"))  \* no adapter: no options
+Init == /\ mode \in Modes /\ kind \in Kinds /\ policy \in Policies /\ keep \in Keeps /\ cached \in Cacheds
+        /\ (mode = "scenario" => (policy = "warm" /\ keep = FALSE /\ kind = "doe" /\ cached))  \* no adapter: no options
         /\ cur = 3 * X0 /\ adef = 0 /\ clear = (mode = "adapter")
         /\ db = <<>> /\ partial = FALSE /\ stored = <<>> /\ ckey = NoKey /\ cout = NoOut
         /\ out = NoOut /\ start = 3 * X0 /\ nruns = 0 /\ log = <<>> /\ steps = 0
@@ -105,7 +108,7 @@ Step == steps < MaxSteps /\ steps' = steps + 1
 
 (* adapter.execute({"a": a [, "x": xin]}):                                                  *)
 (*   SimpleCache hit (same inputs as the last evaluation) -> the cached outputs, nothing    *)
-(*   else happens;  otherwise  _pre_run: the default of a is overwritten, the design space  *)
+(*   else happens (an adapter without cache runs every time);  otherwise  _pre_run: the default of a is overwritten, the design space  *)
 (*   is reset to x0 (reset) or set from the inputs (set); the scenario clears its database  *)
 (*   (clear_history_before_execute) and runs; _post_run: a copy of the database is kept     *)
 (*   (keep_opt_history), the outputs are the optimum and the discipline outputs there.      *)
@@ -114,7 +117,7 @@ ExecuteAdapter(a, xin, mi) ==
   /\ (policy = "set" \/ xin = CHOOSE x \in Xs : TRUE)     \* x is an input of the adapter with "set" only
   /\ LET m == Menu(mi)
          key == [a |-> a, x |-> IF policy = "set" THEN xin ELSE 9, m |-> <<>>] IN
-     IF [ckey EXCEPT !.m = <<>>] = key
+     IF cached /\ [ckey EXCEPT !.m = <<>>] = key
      THEN /\ out' = [cout EXCEPT !.hit = TRUE]
           /\ UNCHANGED <<cfgv, cur, adef, clear, db, partial, stored, ckey, cout, start, nruns, log>>
      ELSE LET s == CASE policy = "reset" -> 3 * X0
@@ -152,8 +155,12 @@ Next == \/ \E a \in As, xin \in Xs, i \in 0..6 : ExecuteAdapter(a, xin, i)   \* 
 
 Spec == Init /\ [][Next]_vars
 
+\* for the graph handed to the conformance replay: the ghost history and the step counter are not part of
+\* what the implementation holds (breadth-first search: a state is kept with its smallest step count)
+ImplView == <<mode, kind, policy, keep, cached, cur, adef, clear, db, partial, stored, ckey, cout, out, start, nruns>>
+
 ------------------------------------------------------------------------------------------
-TypeOK == /\ mode \in Modes /\ kind \in Kinds /\ policy \in Policies /\ keep \in Keeps
+TypeOK == /\ mode \in Modes /\ kind \in Kinds /\ policy \in Policies /\ keep \in Keeps /\ cached \in Cacheds
           /\ cur \in 0..9 /\ start \in 0..9 /\ adef \in As /\ clear \in BOOLEAN /\ partial \in BOOLEAN
           /\ \A k \in 1..Len(db) : db[k].x \in 0..9
           /\ nruns \in 0..MaxSteps /\ steps \in 0..MaxSteps
@@ -175,7 +182,7 @@ OutputsOfThisRun ==
      /\ kind = "doe" => (/\ \E k \in 1..Len(ckey.m) : cout.x = 3 * ckey.m[k]
                          /\ \A k \in 1..Len(ckey.m) : F(3 * ckey.m[k], ckey.a) >= cout.y)
      /\ kind = "opt" => (cout.x = 3 * ckey.a + 1 /\ cout.y = 0)
-     /\ out.hit => (out.x = cout.x /\ out.y = cout.y)
+     /\ out.hit => (cached /\ out.x = cout.x /\ out.y = cout.y)
 
 (* keep_opt_history: one database per run made through the adapter, none otherwise *)
 KeepCount == Len(stored) = (IF keep THEN nruns ELSE 0)
